@@ -41,6 +41,22 @@ theorem tie_stmts_alignStacks : Generated.stmts_alignStacks =
     ["for i := 0; i < max(len(w.stack), len(stack)); i++ { if i >= len(stack) { w.stack = w.stack[:i] return nil } if i < len(w.stack) && w.stack[i] == stack[i] { continue } w.stack = w.stack[:i] w.stack = append(w.stack, stack[i:]...) return w.stack[i:] }",
   "return nil"] := rfl
 
+theorem tie_stmts_buildLayers : Generated.stmts_buildLayers =
+    ["log := clog.FromContext(ctx)",
+  "if strategy := bc.ic.Layering.Strategy; strategy != \"origin\" { return nil, fmt.Errorf(\"unrecognized layering strategy %q\", strategy) }",
+  "if bc.ic.Contents.BaseImage != nil { return nil, fmt.Errorf(\"layering with %q is unsupported\", \"baseimage\") }",
+  "pkgs, err := bc.buildImage(ctx)",
+  "if err != nil { return nil, fmt.Errorf(\"building filesystem: %w\", err) }",
+  "if err := bc.postBuildSetApk(ctx); err != nil { return nil, err }",
+  "groups, err := groupByOriginAndSize(pkgs, bc.ic.Layering.Budget)",
+  "if err != nil { return nil, fmt.Errorf(\"grouping packages: %w\", err) }",
+  "log.Infof(\"Building %d layers with budget %d\", len(groups), bc.ic.Layering.Budget)",
+  "for i, g := range groups { log.Infof(\" layer[%d]:\", i) for _, pkg := range g.pkgs { log.Infof(\" - %s=%s\", pkg.Name, pkg.Version) } }",
+  "return splitLayers(ctx, bc.fs, groups, bc.o.TempDir())"] := rfl
+
+theorem tie_groupBudgetGuard : Generated.groupBudgetGuard =
+    "if budget < 0 { return nil, fmt.Errorf(\"invalid layering budget %d: must not be negative\", budget) }" := rfl
+
 theorem tie_groupFirstLoop : Generated.groupFirstLoop =
     "for _, pkg := range pkgs { origin := pkg.Origin if _, ok := byOrigin[origin]; !ok { byOrigin[origin] = &group{} } g, ok := byOrigin[origin] if !ok { panic(fmt.Errorf(\"byOrigin[%q] missing\", origin)) } g.pkgs = append(g.pkgs, pkg) }" := rfl
 
@@ -122,12 +138,13 @@ theorem groups_closed : GroupsClosed := groupsClosed
 panic outcome are independent of the four map iteration orders (also used by C01). -/
 theorem group_perm_invariant : GroupPermInvariant := groupPermInvariant
 
-/-- the outcome is an error exactly when a replaces entry naming a present package cannot be
-evaluated; for a non-negative budget the function never panics -/
+/-- the outcome is an error exactly when the budget is negative or a replaces entry naming a
+present package cannot be evaluated; the function never panics -/
 theorem group_outcome_characterised (pkgs : List LPkg) (budget : Int) (o1 o2 o3 o4 : Order)
     (hu : UniqueNames pkgs) (ho1 : IsPerm o1) (ho2 : IsPerm o2) (ho3 : IsPerm o3) :
-    (groupByOriginAndSize pkgs budget o1 o2 o3 o4 = .err ↔ replacesError pkgs = true) ∧
-    (0 ≤ budget → groupByOriginAndSize pkgs budget o1 o2 o3 o4 ≠ .panic) :=
+    (groupByOriginAndSize pkgs budget o1 o2 o3 o4 = .err ↔
+      (budget < 0 ∨ replacesError pkgs = true)) ∧
+    groupByOriginAndSize pkgs budget o1 o2 o3 o4 ≠ .panic :=
   group_outcome hu ho1 ho2 ho3
 
 /-- two packages end up in the same group of the merge loop iff they are connected by
@@ -186,16 +203,12 @@ theorem group_count_spec_fails_at_zero : ¬ GroupCountSpec := by
   have := h [f10aPkg] 0 id id id id _ (by decide) hw
   simp at this
 
-/-- F10b: a negative budget never produces groups (the Go code panics in `make`, or returns the
-replaces error first); negative budgets are outside the property's quantifier. -/
-theorem negative_budget_never_ok (pkgs : List LPkg) (budget : Int) (o1 o2 o3 o4 : Order)
-    (hb : budget < 0) : ∀ gs, groupByOriginAndSize pkgs budget o1 o2 o3 o4 ≠ .ok gs :=
-  negative_budget_not_ok pkgs budget o1 o2 o3 o4 hb
-
-theorem negative_budget_panics_witness :
-    groupByOriginAndSize [f10aPkg] (-1) id id id id = .panic := by
-  simp [groupByOriginAndSize, phase1, phase2, phase3, phase4, addPkg, aget, aset, akeys,
-    GState.grp, f10aPkg, foldRes, Res.bind]
+/-- F10b (repaired): a negative budget is rejected with an error, for every input — it used to
+panic in `make([]*group, 0, budget)`; negative budgets are outside the property's quantifier. -/
+theorem negative_budget_rejected (pkgs : List LPkg) (budget : Int) (o1 o2 o3 o4 : Order)
+    (hb : budget < 0) : groupByOriginAndSize pkgs budget o1 o2 o3 o4 = .err := by
+  unfold groupByOriginAndSize
+  rw [if_pos hb]
 
 /-- inside every group the packages are sorted by name, for every input -/
 theorem group_sorted (pkgs : List LPkg) (budget : Int) (o1 o2 o3 o4 : Order) (gs : List Grp)
